@@ -13,184 +13,292 @@ use wyhash::WyHash;
 
 /// the battery: (case name, digest of the bit pattern of the result). Everything is derived from `seed`;
 /// each call constructs fresh sketcher instances.
-pub fn battery(seed: u64, size: usize) -> Vec<(String, u64)> {
+/// number of independent sections of the battery (each derives its inputs from (seed, section) only, so sections can be
+/// executed in any order and concurrently with other sections)
+pub const NSECTIONS: usize = 7;
+
+pub fn battery_section(seed: u64, size: usize, sec: usize) -> Vec<(String, u64)> {
     let mut out = Vec::new();
-    let mut rng = rng_from(mix(&[seed, 0xC12]));
-    // ---- ProbMinHash variants, all entry points (HashMap with RandomState included)
-    for (ci, v) in ALL_PV.iter().enumerate() {
-        for rep in 0..size {
-            let n = [1usize, 5, 40, 200][rep % 4];
-            let m = [v.min_m().max(2), 16, 100, 512][(rep + ci) % 4];
-            let ids = fresh_ids(&mut rng, n, 0);
-            let w: Vec<(u64, f64)> = ids.iter().map(|&d| (d, 10f64.powf(rng.random_range(-3.0..3.0)))).collect();
-            let entries: Vec<Entry> = match v {
-                Pv::P2 => vec![Entry::Item, Entry::Wset, Entry::HashMapStd],
-                Pv::P3 => vec![Entry::Item, Entry::IdxMap, Entry::HashMapStd],
-                _ => vec![Entry::IdxMap, Entry::HashMapStd, Entry::Batches(3)],
-            };
-            for e in entries {
-                let hs = if *v != Pv::P3aSha && rep % 3 == 2 { Hs::NoHash } else { Hs::Fnv };
-                let (sig, reg) = pmh(*v, hs, m, &w, e, 0);
-                out.push((format!("{}/{:?}/{:?}/n={}/m={}/#{}", v.name(), hs, e, n, m, rep), mix(&[digest_u64s(&sig), digest_f64s(&reg)])));
-            }
-        }
-    }
-    // ---- ProbMinHash3aSha over every key type with a byte identity (String, Vec<u8>, Vec<u16>, Vec<u32>, integers), after
-    // disturbing the heap (the identity bytes must not depend on whatever the allocator hands out)
-    {
-        use indexmap::IndexMap;
-        use probminhash::probminhasher::ProbMinHash3aSha;
-        fn sha_sig<D: Clone + Eq + std::fmt::Debug + std::hash::Hash + probminhash::probminhasher::sig::Sig>(keys: Vec<D>, ph: D, m: usize) -> Vec<D> {
-            let mut map: IndexMap<D, f64> = IndexMap::new();
-            for (i, k) in keys.into_iter().enumerate() {
-                map.insert(k, 1. + (i % 7) as f64);
-            }
-            let mut s = ProbMinHash3aSha::<D>::new(m, ph);
-            s.hash_weigthed_idxmap(&map);
-            s.get_signature().clone()
-        }
-        // heap churn: blocks of many sizes filled with instance-dependent garbage, then freed
-        let churn = |salt: u64| {
-            let mut junk: Vec<Vec<u8>> = Vec::new();
-            let mut x = splitmix(salt ^ (&junk as *const _ as u64));
-            for i in 0..400usize {
-                x = splitmix(x);
-                let len = 1 + (x % 300) as usize + (i % 5) * 8;
-                junk.push((0..len).map(|j| (x >> (j % 56)) as u8 ^ j as u8).collect());
-            }
-            junk.truncate(200);
-            drop(junk);
-        };
-        for rep in 0..size.min(8) {
-            let nk = 3 + rep % 5;
-            let m = [4usize, 32, 128][rep % 3];
-            churn(rep as u64);
-            let v16: Vec<Vec<u16>> = (0..nk).map(|i| (0..(1 + 3 * i + rep)).map(|j| rng.random::<u16>() ^ j as u16).collect()).collect();
-            let d = sha_sig::<Vec<u16>>(v16, vec![], m);
-            out.push((format!("pmh3asha/keys=Vec<u16>/m={}/#{}", m, rep), fnv64(format!("{:?}", d).as_bytes())));
-            churn(rep as u64 + 100);
-            let v32: Vec<Vec<u32>> = (0..nk).map(|i| (0..(2 + 2 * i + rep)).map(|_| rng.random::<u32>()).collect()).collect();
-            let d = sha_sig::<Vec<u32>>(v32, vec![], m);
-            out.push((format!("pmh3asha/keys=Vec<u32>/m={}/#{}", m, rep), fnv64(format!("{:?}", d).as_bytes())));
-            churn(rep as u64 + 200);
-            let v8: Vec<Vec<u8>> = (0..nk).map(|i| (0..(1 + 5 * i)).map(|_| rng.random::<u8>()).collect()).collect();
-            let d = sha_sig::<Vec<u8>>(v8, vec![], m);
-            out.push((format!("pmh3asha/keys=Vec<u8>/m={}/#{}", m, rep), fnv64(format!("{:?}", d).as_bytes())));
-            let st: Vec<String> = (0..nk).map(|i| format!("clé-{}-{}", i, rng.random::<u32>())).collect();
-            let d = sha_sig::<String>(st, String::new(), m);
-            out.push((format!("pmh3asha/keys=String/m={}/#{}", m, rep), fnv64(format!("{:?}", d).as_bytes())));
-            let ints: Vec<i32> = (0..nk).map(|_| rng.random::<i32>() | 1).collect();
-            let d = sha_sig::<i32>(ints, 0, m);
-            out.push((format!("pmh3asha/keys=i32/m={}/#{}", m, rep), fnv64(format!("{:?}", d).as_bytes())));
-        }
-    }
-    // ---- ProbOrdMinHash2 on long sequences (tens of thousands of distinct elements that come back later)
-    for rep in 0..2usize.min(size) {
-        let nd = [20_000usize, 9_000][rep % 2];
-        let ids = fresh_ids(&mut rng, nd, 0);
-        let mut seq = ids.clone();
-        seq.extend(ids.iter().rev().step_by(2));
-        seq.extend_from_slice(&ids[..nd / 2]);
-        let s1 = ProbOrdMinHash2::<FnvHasher>::new(16, 2).hash_set(&seq);
-        out.push((format!("probordminhash2/Fnv/long/distinct={}/len={}/#{}", nd, seq.len(), rep), digest_u64s(&s1)));
-    }
-    // ---- ProbOrdMinHash2
-    for rep in 0..size * 2 {
-        let l = [1usize, 2, 3, 5][rep % 4];
-        let m = [1u32, 8, 64, 256][(rep / 2) % 4];
-        let len = l + [0usize, 5, 30, 100][rep % 4];
-        let alphabet = fresh_ids(&mut rng, (len / 2).max(1), 0);
-        let seq: Vec<u64> = (0..len).map(|_| alphabet[rng.random_range(0..alphabet.len())]).collect();
-        let s1 = ProbOrdMinHash2::<FnvHasher>::new(m, l).hash_set(&seq);
-        out.push((format!("probordminhash2/Fnv/m={}/l={}/len={}/#{}", m, l, len, rep), digest_u64s(&s1)));
-        let s2 = ProbOrdMinHash2::<WyHash>::new(m, l).hash_set(&seq);
-        out.push((format!("probordminhash2/WyHash/m={}/l={}/len={}/#{}", m, l, len, rep), digest_u64s(&s2)));
-        // a reused instance: second call on the same instance
-        let mut inst = ProbOrdMinHash2::<FnvHasher>::new(m, l);
-        let _ = inst.hash_set(&seq[..l.max(len / 2)]);
-        let s3 = inst.hash_set(&seq);
-        out.push((format!("probordminhash2/Fnv/reused/m={}/l={}/len={}/#{}", m, l, len, rep), digest_u64s(&s3)));
-    }
-    // ---- unweighted sketchers, all views
+    let mut rng = rng_from(mix(&[seed, 0xC12, sec as u64]));
     let kinds = crate::c04::kinds();
-    for (ki, k) in kinds.iter().enumerate() {
-        for rep in 0..size {
-            let n = [1usize, 7, 300, 3000][(rep + ki) % 4];
-            let mut m = [1usize, 10, 128, 1000][(rep + 2 * ki) % 4];
-            if k.is_rev() {
-                m = m.min(300);
-            }
-            let ids = if k.is_nohash() { ids_with_specials(&mut rng, n) } else { fresh_ids(&mut rng, n, 0) };
-            let mut s = make_usk(*k, m);
-            if rep % 2 == 0 {
-                s.sketch_slice(&ids);
-            } else {
-                for d in &ids {
-                    s.sketch(*d);
+    if sec == 0 {
+        // ---- ProbMinHash variants, all entry points (HashMap with RandomState included)
+        for (ci, v) in ALL_PV.iter().enumerate() {
+            for rep in 0..size {
+                let n = [1usize, 5, 40, 200][rep % 4];
+                let m = [v.min_m().max(2), 16, 100, 512][(rep + ci) % 4];
+                let ids = fresh_ids(&mut rng, n, 0);
+                let w: Vec<(u64, f64)> = ids.iter().map(|&d| (d, 10f64.powf(rng.random_range(-3.0..3.0)))).collect();
+                let entries: Vec<Entry> = match v {
+                    Pv::P2 => vec![Entry::Item, Entry::Wset, Entry::HashMapStd],
+                    Pv::P3 => vec![Entry::Item, Entry::IdxMap, Entry::HashMapStd],
+                    _ => vec![Entry::IdxMap, Entry::HashMapStd, Entry::Batches(3)],
+                };
+                for e in entries {
+                    let hs = if *v != Pv::P3aSha && rep % 3 == 2 { Hs::NoHash } else { Hs::Fnv };
+                    let (sig, reg) = pmh(*v, hs, m, &w, e, 0);
+                    out.push((format!("{}/{:?}/{:?}/n={}/m={}/#{}", v.name(), hs, e, n, m, rep), mix(&[digest_u64s(&sig), digest_f64s(&reg)])));
                 }
-                s.finish();
             }
-            out.push((format!("{}/n={}/m={}/#{}", k.name(), n, m, rep), digest_u64s(&s.bits())));
         }
     }
-    // ---- two live instances fed in lockstep must not influence each other ("any number of instances"):
-    // digest = xor of (lockstep digest, alone digest) for both instances, must be 0
-    for (ki, k) in kinds.iter().enumerate() {
-        for rep in 0..size.min(6) {
-            let n = [1usize, 2, 40, 400][(rep + ki) % 4];
-            let m = [1usize, 16, 128, 300][(rep + 3 * ki) % 4];
-            let a = if k.is_nohash() { ids_with_specials(&mut rng, n) } else { fresh_ids(&mut rng, n, 0) };
-            let b = fresh_ids(&mut rng, n, 0);
-            let alone = |xs: &[u64]| {
-                let mut s = make_usk(*k, m);
-                for d in xs {
-                    s.sketch(*d);
+    if sec == 1 {
+        // ---- ProbMinHash3aSha over every key type with a byte identity (String, Vec<u8>, Vec<u16>, Vec<u32>, integers), after
+        // disturbing the heap (the identity bytes must not depend on whatever the allocator hands out)
+        {
+            use indexmap::IndexMap;
+            use probminhash::probminhasher::ProbMinHash3aSha;
+            fn sha_sig<D: Clone + Eq + std::fmt::Debug + std::hash::Hash + probminhash::probminhasher::sig::Sig>(keys: Vec<D>, ph: D, m: usize) -> Vec<D> {
+                let mut map: IndexMap<D, f64> = IndexMap::new();
+                for (i, k) in keys.into_iter().enumerate() {
+                    map.insert(k, 1. + (i % 7) as f64);
                 }
-                s.finish();
-                digest_u64s(&s.bits())
+                let mut s = ProbMinHash3aSha::<D>::new(m, ph);
+                s.hash_weigthed_idxmap(&map);
+                s.get_signature().clone()
+            }
+            // heap churn: blocks of many sizes filled with instance-dependent garbage, then freed
+            let churn = |salt: u64| {
+                let mut junk: Vec<Vec<u8>> = Vec::new();
+                let mut x = splitmix(salt ^ (&junk as *const _ as u64));
+                for i in 0..400usize {
+                    x = splitmix(x);
+                    let len = 1 + (x % 300) as usize + (i % 5) * 8;
+                    junk.push((0..len).map(|j| (x >> (j % 56)) as u8 ^ j as u8).collect());
+                }
+                junk.truncate(200);
+                drop(junk);
             };
-            let (da, db) = (alone(&a), alone(&b));
-            let mut sa = make_usk(*k, m);
-            let mut sb = make_usk(*k, m);
-            for i in 0..n {
-                sa.sketch(a[i]);
-                sb.sketch(b[i]);
+            for rep in 0..size.min(8) {
+                let nk = 3 + rep % 5;
+                let m = [4usize, 32, 128][rep % 3];
+                churn(rep as u64);
+                let v16: Vec<Vec<u16>> = (0..nk).map(|i| (0..(1 + 3 * i + rep)).map(|j| rng.random::<u16>() ^ j as u16).collect()).collect();
+                let d = sha_sig::<Vec<u16>>(v16, vec![], m);
+                out.push((format!("pmh3asha/keys=Vec<u16>/m={}/#{}", m, rep), fnv64(format!("{:?}", d).as_bytes())));
+                churn(rep as u64 + 100);
+                let v32: Vec<Vec<u32>> = (0..nk).map(|i| (0..(2 + 2 * i + rep)).map(|_| rng.random::<u32>()).collect()).collect();
+                let d = sha_sig::<Vec<u32>>(v32, vec![], m);
+                out.push((format!("pmh3asha/keys=Vec<u32>/m={}/#{}", m, rep), fnv64(format!("{:?}", d).as_bytes())));
+                churn(rep as u64 + 200);
+                let v8: Vec<Vec<u8>> = (0..nk).map(|i| (0..(1 + 5 * i)).map(|_| rng.random::<u8>()).collect()).collect();
+                let d = sha_sig::<Vec<u8>>(v8, vec![], m);
+                out.push((format!("pmh3asha/keys=Vec<u8>/m={}/#{}", m, rep), fnv64(format!("{:?}", d).as_bytes())));
+                let st: Vec<String> = (0..nk).map(|i| format!("clé-{}-{}", i, rng.random::<u32>())).collect();
+                let d = sha_sig::<String>(st, String::new(), m);
+                out.push((format!("pmh3asha/keys=String/m={}/#{}", m, rep), fnv64(format!("{:?}", d).as_bytes())));
+                let ints: Vec<i32> = (0..nk).map(|_| rng.random::<i32>() | 1).collect();
+                let d = sha_sig::<i32>(ints, 0, m);
+                out.push((format!("pmh3asha/keys=i32/m={}/#{}", m, rep), fnv64(format!("{:?}", d).as_bytes())));
             }
-            sa.finish();
-            sb.finish();
-            let x = (digest_u64s(&sa.bits()) ^ da) | (digest_u64s(&sb.bits()) ^ db);
-            out.push((format!("{}/lockstep-vs-alone/n={}/m={}/#{}", k.name(), n, m, rep), x));
         }
     }
-    // same for the item-wise ProbMinHash variants
-    for rep in 0..size.min(6) {
-        use probminhash::probminhasher::{ProbMinHash2, ProbMinHash3};
-        let n = [1usize, 3, 30, 200][rep % 4];
-        let m = [2usize, 8, 64, 256][(rep + 1) % 4];
-        let wa: Vec<(u64, f64)> = fresh_ids(&mut rng, n, 0).into_iter().map(|d| (d, rng.random_range(0.1..10.))).collect();
-        let wb: Vec<(u64, f64)> = fresh_ids(&mut rng, n, 0).into_iter().map(|d| (d, rng.random_range(0.1..10.))).collect();
-        let (ra, _) = pmh(Pv::P2, Hs::Fnv, m, &wa, Entry::Item, 0);
-        let (rb, _) = pmh(Pv::P2, Hs::Fnv, m, &wb, Entry::Item, 0);
-        let mut s1 = ProbMinHash2::<u64, FnvHasher>::new(m, 0);
-        let mut s2 = ProbMinHash2::<u64, FnvHasher>::new(m, 0);
-        for i in 0..n {
-            s1.hash_item(wa[i].0, wa[i].1);
-            s2.hash_item(wb[i].0, wb[i].1);
+    if sec == 2 {
+        // ---- ProbOrdMinHash2 on long sequences (tens of thousands of distinct elements that come back later)
+        for rep in 0..2usize.min(size) {
+            let nd = [20_000usize, 9_000][rep % 2];
+            let ids = fresh_ids(&mut rng, nd, 0);
+            let mut seq = ids.clone();
+            seq.extend(ids.iter().rev().step_by(2));
+            seq.extend_from_slice(&ids[..nd / 2]);
+            let s1 = ProbOrdMinHash2::<FnvHasher>::new(16, 2).hash_set(&seq);
+            out.push((format!("probordminhash2/Fnv/long/distinct={}/len={}/#{}", nd, seq.len(), rep), digest_u64s(&s1)));
         }
-        let x = (digest_u64s(s1.get_signature()) ^ digest_u64s(&ra)) | (digest_u64s(s2.get_signature()) ^ digest_u64s(&rb));
-        out.push((format!("pmh2/lockstep-vs-alone/n={}/m={}/#{}", n, m, rep), x));
-        let (ra, _) = pmh(Pv::P3, Hs::Fnv, m, &wa, Entry::Item, 0);
-        let (rb, _) = pmh(Pv::P3, Hs::Fnv, m, &wb, Entry::Item, 0);
-        let mut s1 = ProbMinHash3::<u64, FnvHasher>::new(m, 0);
-        let mut s2 = ProbMinHash3::<u64, FnvHasher>::new(m, 0);
-        for i in 0..n {
-            s1.hash_item(wa[i].0, &wa[i].1);
-            s2.hash_item(wb[i].0, &wb[i].1);
+    }
+    if sec == 3 {
+        // ---- ProbOrdMinHash2
+        for rep in 0..size * 2 {
+            let l = [1usize, 2, 3, 5][rep % 4];
+            let m = [1u32, 8, 64, 256][(rep / 2) % 4];
+            let len = l + [0usize, 5, 30, 100][rep % 4];
+            let alphabet = fresh_ids(&mut rng, (len / 2).max(1), 0);
+            let seq: Vec<u64> = (0..len).map(|_| alphabet[rng.random_range(0..alphabet.len())]).collect();
+            let s1 = ProbOrdMinHash2::<FnvHasher>::new(m, l).hash_set(&seq);
+            out.push((format!("probordminhash2/Fnv/m={}/l={}/len={}/#{}", m, l, len, rep), digest_u64s(&s1)));
+            let s2 = ProbOrdMinHash2::<WyHash>::new(m, l).hash_set(&seq);
+            out.push((format!("probordminhash2/WyHash/m={}/l={}/len={}/#{}", m, l, len, rep), digest_u64s(&s2)));
+            // a reused instance: second call on the same instance
+            let mut inst = ProbOrdMinHash2::<FnvHasher>::new(m, l);
+            let _ = inst.hash_set(&seq[..l.max(len / 2)]);
+            let s3 = inst.hash_set(&seq);
+            out.push((format!("probordminhash2/Fnv/reused/m={}/l={}/len={}/#{}", m, l, len, rep), digest_u64s(&s3)));
         }
-        let x = (digest_u64s(s1.get_signature()) ^ digest_u64s(&ra)) | (digest_u64s(s2.get_signature()) ^ digest_u64s(&rb));
-        out.push((format!("pmh3/lockstep-vs-alone/n={}/m={}/#{}", n, m, rep), x));
+    }
+    if sec == 4 {
+        // ---- unweighted sketchers, all views
+        for (ki, k) in kinds.iter().enumerate() {
+            for rep in 0..size {
+                let n = [1usize, 7, 300, 3000][(rep + ki) % 4];
+                let mut m = [1usize, 10, 128, 1000][(rep + 2 * ki) % 4];
+                if k.is_rev() {
+                    m = m.min(300);
+                }
+                let ids = if k.is_nohash() { ids_with_specials(&mut rng, n) } else { fresh_ids(&mut rng, n, 0) };
+                let mut s = make_usk(*k, m);
+                if rep % 2 == 0 {
+                    s.sketch_slice(&ids);
+                } else {
+                    for d in &ids {
+                        s.sketch(*d);
+                    }
+                    s.finish();
+                }
+                out.push((format!("{}/n={}/m={}/#{}", k.name(), n, m, rep), digest_u64s(&s.bits())));
+            }
+        }
+    }
+    if sec == 5 {
+        // ---- two live instances fed in lockstep must not influence each other ("any number of instances"):
+        // digest = xor of (lockstep digest, alone digest) for both instances, must be 0
+        for (ki, k) in kinds.iter().enumerate() {
+            for rep in 0..size.min(6) {
+                let n = [1usize, 2, 40, 400][(rep + ki) % 4];
+                let m = [1usize, 16, 128, 300][(rep + 3 * ki) % 4];
+                let a = if k.is_nohash() { ids_with_specials(&mut rng, n) } else { fresh_ids(&mut rng, n, 0) };
+                let b = fresh_ids(&mut rng, n, 0);
+                let alone = |xs: &[u64]| {
+                    let mut s = make_usk(*k, m);
+                    for d in xs {
+                        s.sketch(*d);
+                    }
+                    s.finish();
+                    digest_u64s(&s.bits())
+                };
+                let (da, db) = (alone(&a), alone(&b));
+                let mut sa = make_usk(*k, m);
+                let mut sb = make_usk(*k, m);
+                for i in 0..n {
+                    sa.sketch(a[i]);
+                    sb.sketch(b[i]);
+                }
+                sa.finish();
+                sb.finish();
+                let x = (digest_u64s(&sa.bits()) ^ da) | (digest_u64s(&sb.bits()) ^ db);
+                out.push((format!("{}/lockstep-vs-alone/n={}/m={}/#{}", k.name(), n, m, rep), x));
+            }
+        }
+    }
+    if sec == 6 {
+        // same for the item-wise ProbMinHash variants
+        for rep in 0..size.min(6) {
+            use probminhash::probminhasher::{ProbMinHash2, ProbMinHash3};
+            let n = [1usize, 3, 30, 200][rep % 4];
+            let m = [2usize, 8, 64, 256][(rep + 1) % 4];
+            let wa: Vec<(u64, f64)> = fresh_ids(&mut rng, n, 0).into_iter().map(|d| (d, rng.random_range(0.1..10.))).collect();
+            let wb: Vec<(u64, f64)> = fresh_ids(&mut rng, n, 0).into_iter().map(|d| (d, rng.random_range(0.1..10.))).collect();
+            let (ra, _) = pmh(Pv::P2, Hs::Fnv, m, &wa, Entry::Item, 0);
+            let (rb, _) = pmh(Pv::P2, Hs::Fnv, m, &wb, Entry::Item, 0);
+            let mut s1 = ProbMinHash2::<u64, FnvHasher>::new(m, 0);
+            let mut s2 = ProbMinHash2::<u64, FnvHasher>::new(m, 0);
+            for i in 0..n {
+                s1.hash_item(wa[i].0, wa[i].1);
+                s2.hash_item(wb[i].0, wb[i].1);
+            }
+            let x = (digest_u64s(s1.get_signature()) ^ digest_u64s(&ra)) | (digest_u64s(s2.get_signature()) ^ digest_u64s(&rb));
+            out.push((format!("pmh2/lockstep-vs-alone/n={}/m={}/#{}", n, m, rep), x));
+            let (ra, _) = pmh(Pv::P3, Hs::Fnv, m, &wa, Entry::Item, 0);
+            let (rb, _) = pmh(Pv::P3, Hs::Fnv, m, &wb, Entry::Item, 0);
+            let mut s1 = ProbMinHash3::<u64, FnvHasher>::new(m, 0);
+            let mut s2 = ProbMinHash3::<u64, FnvHasher>::new(m, 0);
+            for i in 0..n {
+                s1.hash_item(wa[i].0, &wa[i].1);
+                s2.hash_item(wb[i].0, &wb[i].1);
+            }
+            let x = (digest_u64s(s1.get_signature()) ^ digest_u64s(&ra)) | (digest_u64s(s2.get_signature()) ^ digest_u64s(&rb));
+            out.push((format!("pmh3/lockstep-vs-alone/n={}/m={}/#{}", n, m, rep), x));
+        }
     }
     out
+}
+
+/// the whole battery in canonical order
+pub fn battery(seed: u64, size: usize) -> Vec<(String, u64)> {
+    (0..NSECTIONS).flat_map(|s| battery_section(seed, size, s)).collect()
+}
+
+/// the whole battery, sections executed starting at `rot` (results returned in canonical order)
+pub fn battery_rotated(seed: u64, size: usize, rot: usize) -> Vec<(String, u64)> {
+    let mut parts: Vec<(usize, Vec<(String, u64)>)> = (0..NSECTIONS).map(|i| (rot + i) % NSECTIONS).map(|s| (s, battery_section(seed, size, s))).collect();
+    parts.sort_by_key(|p| p.0);
+    parts.into_iter().flat_map(|p| p.1).collect()
+}
+
+/// one small case of the hammer leg: (type, size, input seed) -> digest
+fn hammer_case(kind: usize, m: usize, iseed: u64) -> u64 {
+    let mut rng = rng_from(iseed);
+    match kind {
+        0 | 1 => {
+            // sparse densified sketch (far fewer items than bins): densification does most of the work
+            let k = if kind == 0 { UKind::RevF64 } else { UKind::OptF64 };
+            let ids = fresh_ids(&mut rng, 1 + m / 40, 0);
+            let mut s = make_usk(k, m);
+            s.sketch_slice(&ids);
+            digest_u64s(&s.bits())
+        }
+        2 => {
+            // ProbMinHash3 family: construction (sampler constants) + a tiny set
+            let v = [Pv::P3, Pv::P3a, Pv::P3aSha][(iseed % 3) as usize];
+            let w: Vec<(u64, f64)> = fresh_ids(&mut rng, 3, 0).into_iter().map(|d| (d, rng.random_range(0.5..4.0))).collect();
+            let (sig, reg) = pmh(v, Hs::Fnv, m, &w, Entry::IdxMap, 0);
+            mix(&[digest_u64s(&sig), digest_f64s(&reg)])
+        }
+        3 => {
+            let ids = fresh_ids(&mut rng, 5 + m / 8, 0);
+            let mut s = make_usk(UKind::SetU16(1.05, 30., 2000), m);
+            s.sketch_slice(&ids);
+            digest_u64s(&s.bits())
+        }
+        _ => {
+            let ids = fresh_ids(&mut rng, 4, 0);
+            let mut s = make_usk(if iseed % 2 == 0 { UKind::SmhF64 } else { UKind::Smh2U64 }, m);
+            s.sketch_slice(&ids);
+            digest_u64s(&s.bits())
+        }
+    }
+}
+
+/// hammer leg: rounds in which all threads are released together on configurations not seen before in the process, either
+/// all on the same one (contention on whatever is shared per configuration) or each on another one (cross-talk between
+/// configurations). Every digest is compared with the digest of the same case computed afterwards by one thread.
+fn hammer(seed: u64, rounds: usize, nthreads: usize, iters: usize) -> (u64, Vec<String>) {
+    let mut mism = Vec::new();
+    let mut nexec = 0u64;
+    let sizes = [2usize, 3, 7, 16, 64, 200, 37, 513];
+    for r in 0..rounds {
+        let kind = r % 5;
+        let same = (r / 5) % 2 == 0;
+        let barrier = Arc::new(Barrier::new(nthreads));
+        // configuration of (thread, iteration)
+        let cfg = move |ti: usize, it: usize| -> (usize, u64) {
+            let m = if kind <= 1 { 400 + 13 * r + if same { 0 } else { 7 * ti } + it % 2 } else if same { sizes[(r + it) % sizes.len()] } else { sizes[(ti + r + it) % sizes.len()] };
+            let iseed = mix(&[seed, r as u64, if same { 0 } else { ti as u64 }, it as u64]);
+            (m.max(2), iseed)
+        };
+        let n_it = if kind <= 1 { 2 } else { iters };
+        let results: Vec<Vec<u64>> = std::thread::scope(|s| {
+            let hs: Vec<_> = (0..nthreads)
+                .map(|ti| {
+                    let b = barrier.clone();
+                    s.spawn(move || {
+                        b.wait();
+                        (0..n_it).map(|it| { let (m, is) = cfg(ti, it); hammer_case(kind, m, is) }).collect::<Vec<u64>>()
+                    })
+                })
+                .collect();
+            hs.into_iter().map(|h| h.join().expect("hammer thread panicked")).collect()
+        });
+        for ti in 0..nthreads {
+            for it in 0..n_it {
+                nexec += 1;
+                let (m, is) = cfg(ti, it);
+                let want = hammer_case(kind, m, is);
+                if results[ti][it] != want && mism.len() < 6 {
+                    mism.push(format!("hammer round {} ({} configuration per round, case type {}, m={}): thread {} iteration {} got {:#x}, the same case computed alone afterwards gives {:#x}", r, if same { "same" } else { "different" }, kind, m, ti, it, results[ti][it], want));
+                }
+            }
+        }
+    }
+    (nexec, mism)
 }
 
 fn battery_size(tier: Tier) -> usize {
@@ -244,12 +352,13 @@ pub fn run(rep: &mut Report) {
             let t0 = Instant::now();
             let results: Vec<(Vec<(String, u64)>, f64, f64)> = std::thread::scope(|s| {
                 let hs: Vec<_> = (0..nthreads)
-                    .map(|_| {
+                    .map(|ti| {
                         let b = barrier.clone();
                         s.spawn(move || {
                             b.wait();
                             let st = t0.elapsed().as_secs_f64();
-                            let r = battery(seed, size);
+                            // every thread starts in another section: different sketcher types and sizes run at the same time
+                            let r = battery_rotated(seed, size, ti + round);
                             (r, st, t0.elapsed().as_secs_f64())
                         })
                     })
@@ -268,6 +377,13 @@ pub fn run(rep: &mut Report) {
                 rep.evaluations += results[i].0.len() as u64;
                 compare(&format!("thread {} of round {}", i, round), &results[i].0, &mut mismatches);
             }
+        }
+        // hammer leg
+        let (nexec, hm) = hammer(seed, rep.tier.pick(20, 100), nthreads, rep.tier.pick(300, 1500));
+        rep.evaluations += nexec;
+        rep.count("threads.hammer_cases_run", nexec);
+        for h in hm {
+            mismatches.entry("hammer/concurrent-vs-alone".into()).or_default().push(h);
         }
         rep.count("threads.overlapping_task_pairs_observed", overlaps);
         rep.count("threads.distinct_completion_orders_observed", orders.len() as u64);
@@ -302,6 +418,34 @@ pub fn run(rep: &mut Report) {
                 Err(e) => rep.inconclusive.push(format!("child process {} could not be run: {}", pi, e)),
             }
         }
+        // cold processes in which 16 threads start the battery at once (no single-threaded warm-up of any process-wide state)
+        let npar = rep.tier.pick(3, 8);
+        let pchildren: Vec<_> = (0..npar)
+            .map(|_| std::process::Command::new(&exe).args(["child", "c12", &seed.to_string(), &size.to_string(), "par", "16"]).env("RUST_BACKTRACE", "0").stdout(std::process::Stdio::piped()).stderr(std::process::Stdio::null()).spawn())
+            .collect();
+        for (pi, c) in pchildren.into_iter().enumerate() {
+            match c.and_then(|c| c.wait_with_output()) {
+                Ok(o) if o.status.success() => {
+                    let text = String::from_utf8_lossy(&o.stdout);
+                    let mut per_thread: BTreeMap<usize, Vec<(String, u64)>> = BTreeMap::new();
+                    for line in text.lines() {
+                        if let Some(rest) = line.strip_prefix("TCASE ") {
+                            let mut it = rest.splitn(3, ' ');
+                            if let (Some(t), Some(d), Some(name)) = (it.next(), it.next(), it.next()) {
+                                per_thread.entry(t.parse().unwrap_or(0)).or_default().push((name.to_string(), u64::from_str_radix(d, 16).unwrap_or(0)));
+                            }
+                        }
+                    }
+                    for (t, res) in per_thread {
+                        rep.evaluations += res.len() as u64;
+                        compare(&format!("thread {} of cold parallel process {}", t, pi), &res, &mut mismatches);
+                    }
+                }
+                Ok(o) => rep.violation("C12/process-crash", "processes", format!("cold parallel child process {} died (exit {:?}) while 16 threads ran the battery", pi, o.status.code()), json!({"child": pi})),
+                Err(e) => rep.inconclusive.push(format!("parallel child process {} could not be run: {}", pi, e)),
+            }
+        }
+        rep.count("processes.cold_parallel_children", npar as u64);
         let distinct_info: std::collections::BTreeSet<&String> = proc_info.iter().collect();
         rep.count("processes.children", nproc as u64);
         rep.count("processes.distinct_layout_or_randomstate_fingerprints", distinct_info.len() as u64);
@@ -320,6 +464,30 @@ pub fn run(rep: &mut Report) {
 pub fn child(a: &[String]) -> i32 {
     let seed: u64 = a.first().and_then(|s| s.parse().ok()).unwrap_or(1);
     let size: usize = a.get(1).and_then(|s| s.parse().ok()).unwrap_or(3);
+    if a.get(2).map(|s| s == "par").unwrap_or(false) {
+        // cold process: nothing of the crate has run yet; all threads start at once, each in another section
+        let nthreads: usize = a.get(3).and_then(|s| s.parse().ok()).unwrap_or(16);
+        let barrier = Arc::new(Barrier::new(nthreads));
+        let results: Vec<Vec<(String, u64)>> = std::thread::scope(|s| {
+            let hs: Vec<_> = (0..nthreads)
+                .map(|ti| {
+                    let b = barrier.clone();
+                    s.spawn(move || {
+                        b.wait();
+                        battery_rotated(seed, size, ti)
+                    })
+                })
+                .collect();
+            hs.into_iter().map(|h| h.join().expect("battery thread panicked")).collect()
+        });
+        println!("PROCINFO cold-parallel pid={} threads={}", std::process::id(), nthreads);
+        for (ti, r) in results.iter().enumerate() {
+            for (name, d) in r {
+                println!("TCASE {} {:x} {}", ti, d, name);
+            }
+        }
+        return 0;
+    }
     let local = 0u8;
     let heap = Box::new(0u8);
     use std::hash::BuildHasher;
